@@ -5,9 +5,11 @@
 // must be identical to B's observation when it runs alone in a pristine
 // process.  The oracle is differential: no expected values are written down.
 //
-// Every case runs in a child process of its own (see child.go): state that an
-// interferer leaks into the process would otherwise survive into the next
-// cases of the same worker and be blamed on innocent pairs.
+// Cases run in child processes (see child.go): state that an interferer leaks
+// into the process would otherwise survive into the next cases of the same
+// worker and be blamed on innocent pairs.  A long-lived child serves cases as
+// long as every observer still sees it as pristine; every failure is
+// re-established in a fresh process of its own before it is reported.
 package c20seq
 
 import (
@@ -24,11 +26,38 @@ const (
 	famTripStmt  = "seq.triples.stmt"
 )
 
+// orderedInterferers lists the interferers that touch process-level
+// facilities (Core) first: a family cut short by its time budget on an
+// overloaded machine loses the least interesting cases.
+func orderedInterferers() []Script {
+	out := coreInterferers()
+	for _, s := range Interferers {
+		if !s.Core {
+			out = append(out, s)
+		}
+	}
+	return out
+}
+
 // interfererPool is the "A" side of the pair family: every interferer, then
-// every observer (observer/observer pairs for symmetry).
-func interfererPool() []Script {
-	out := append([]Script(nil), Interferers...)
-	return append(out, Observers...)
+// the observers (observer/observer pairs for symmetry): in the quick tier the
+// observers that call a mutating library function (Active), in the thorough
+// tier all of them.
+func interfererPool(all bool) []Script {
+	out := orderedInterferers()
+	for _, s := range Observers {
+		if s.Active {
+			out = append(out, s)
+		}
+	}
+	if all {
+		for _, s := range Observers {
+			if !s.Active {
+				out = append(out, s)
+			}
+		}
+	}
+	return out
 }
 
 func coreInterferers() []Script {
@@ -66,7 +95,7 @@ func resolve(fam string, idx uint64) (*caseDef, error) {
 	nObs := uint64(len(Observers))
 	switch fam {
 	case famPairs:
-		pool := interfererPool()
+		pool := interfererPool(true) // the quick tier's pool is a prefix
 		if idx >= uint64(len(pool))*nObs {
 			return nil, fmt.Errorf("index out of range")
 		}
@@ -88,7 +117,7 @@ func resolve(fam string, idx uint64) (*caseDef, error) {
 			Key:    fmt.Sprintf("observer=%s clause=observer-nondeterministic", b.Name),
 		}, nil
 	case famTripBlock, famTripStmt:
-		ints := Interferers
+		ints := orderedInterferers()
 		if fam == famTripStmt {
 			ints = coreInterferers()
 		}
@@ -114,7 +143,7 @@ func resolve(fam string, idx uint64) (*caseDef, error) {
 		}
 		// positions of x and y in the pair family's pool (interferers first)
 		for _, s := range []Script{x, y} {
-			for p, q := range Interferers {
+			for p, q := range orderedInterferers() {
 				if q.Name == s.Name {
 					cd.Pairs = append(cd.Pairs, uint64(p)*nObs+idx%nObs)
 				}
@@ -143,17 +172,23 @@ func show(fam string, idx uint64) string {
 		strings.TrimRight(describe(cd.Actors), "\n"), len(cd.merges()), len(cd.Actors))
 }
 
-// runCase is Family.Run: the case is executed in a pristine child process.
+// runCase is Family.Run.
 func runCase(fam string, idx uint64) core.Outcome {
 	cd, err := resolve(fam, idx)
 	if err != nil {
 		panic(err)
 	}
-	res, cerr := spawnChild(childReq{Fam: fam, Idx: idx})
+	res, cerr := runServed(childReq{Fam: fam, Idx: idx})
+	if cerr != nil || res.Nondet != "" || len(res.Fail) > 0 {
+		// Anything but a clean pass is re-established in a pristine process
+		// of its own, so that the verdict cannot depend on what the
+		// long-lived child ran before.
+		res, cerr = runPristine(childReq{Fam: fam, Idx: idx})
+	}
 	if cerr != nil {
 		return core.Outcome{NonTrivial: true, Viol: &core.Violation{
 			Key:    strings.Replace(cd.Key, "clause=interference", "clause=child-"+cerr.kind, 1),
-			Detail: fmt.Sprintf("%s\nthe process running this case %s\n%s", describe(cd.Actors), cerr.kind, cerr.detail),
+			Detail: fmt.Sprintf("%s\nthe process running this case: %s\n%s", describe(cd.Actors), cerr.kind, cerr.detail),
 		}}
 	}
 	out := core.Outcome{Sig: res.Sig, NonTrivial: true, States: res.Merges, Trans: res.Stmts}
@@ -173,7 +208,7 @@ func runCase(fam string, idx uint64) core.Outcome {
 	// again: the pair family reports the pair (checked here, in fresh
 	// processes, with the pair family's own case).
 	for _, p := range cd.Pairs {
-		pr, perr := spawnChild(childReq{Fam: famPairs, Idx: p})
+		pr, perr := runPristine(childReq{Fam: famPairs, Idx: p})
 		if perr == nil && pr.Nondet == "" && len(pr.Fail) > 0 {
 			return out
 		}
@@ -192,7 +227,7 @@ func runCase(fam string, idx uint64) core.Outcome {
 		if tried++; tried > 6 {
 			break
 		}
-		r2, e2 := spawnChild(childReq{Fam: fam, Idx: idx, Only: []int{f.Merge}})
+		r2, e2 := runPristine(childReq{Fam: fam, Idx: idx, Only: []int{f.Merge}})
 		if e2 == nil && len(r2.Fail) > 0 {
 			confirmed = &r2.Fail[0]
 			break
@@ -200,7 +235,7 @@ func runCase(fam string, idx uint64) core.Outcome {
 	}
 	var sb strings.Builder
 	sb.WriteString(describe(cd.Actors))
-	fmt.Fprintf(&sb, "%d of %d merges fail (every merge is followed by a solo re-run of the observer)\n", res.NFail, len(ms))
+	fmt.Fprintf(&sb, "%d of %d merges fail\n", res.NFail, len(ms))
 	f := res.Fail[0]
 	if confirmed != nil {
 		f = *confirmed
@@ -233,10 +268,15 @@ func Families(tier string) []*core.Family {
 			HangSeconds: 400,
 		}
 	}
-	fams := []*core.Family{
-		mk(famSelf, nObs),
-		mk(famPairs, uint64(len(interfererPool()))*nObs),
+	pairs := mk(famPairs, uint64(len(interfererPool(tier == "thorough")))*nObs)
+	// Never fail on time.  Cases are ordered interferer x observer first,
+	// observer x observer last, so a cut on an overloaded machine drops the
+	// least interesting pairs (reported as exhaustive=false).
+	pairs.BudgetSeconds = 100
+	if tier == "thorough" {
+		pairs.BudgetSeconds = 300
 	}
+	fams := []*core.Family{mk(famSelf, nObs), pairs}
 	if tier == "thorough" {
 		tb := mk(famTripBlock, nPairs(uint64(len(Interferers)))*nObs)
 		ts := mk(famTripStmt, nPairs(uint64(len(coreInterferers())))*nObs)
@@ -253,7 +293,7 @@ const Rule = "for every ordered pair (A, B) of catalogue scripts (<= 4 statement
 var Assumptions = []string{
 	"differential oracle: the solo observation is taken as the first thing a fresh process does; no expected value is hand written",
 	"observers contain nothing that depends on time, addresses, PIDs, the environment or the moment Go's collector runs (seq.selfcheck re-runs every observer 25 times)",
-	"every case runs in its own child process so that state leaked by one case cannot be blamed on another",
+	"cases run in child processes; a child is reused only while all observers, re-run alone after every case, still give their pristine observations, and every failure is re-established in a fresh process of its own",
 	"the file system is shared by nature: scripts use per-runtime file names inside a per-process sentinel directory",
 }
 
